@@ -10,6 +10,7 @@
   request (engine `walk`):
     walk <arch> <os> ctx:<r=v,..> valid:<all|-|r,..> stack:<none|base:hex> mods:<-|base:size:name,..> (sym:<module name>:<records>)*
       records (`;`-separated, fields `|`-separated):
+      optional LAST field `be:1` (`be:0`): the stack memory is read big-endian (`Mem.be`); also on `chain` requests
         F|addr|size|psize|name    P|addr|psize|name    C|addr|size|rules    A|addr|rules (belongs to the last C)
         c|addr|size|<hex rules>   a|addr|<hex rules>
       rule text: `C`/`A` carry it with `_` for a space (plain texts), `c`/`a` hex-encoded UTF-8 (any text a
@@ -29,8 +30,20 @@ import MdModel.Walk.LayoutMixed
 namespace MdModel.Walk
 open MdModel MdModel.Proto
 
+/-- the optional trailing field `be:1` / `be:0` of `walk` and `chain` requests -/
+def splitBe (args : List String) : List String × Bool :=
+  match args.getLast? with
+  | some "be:1" => (args.dropLast, true)
+  | some "be:0" => (args.dropLast, false)
+  | _ => (args, false)
+
+/-- `parseRequest` on the fields before the optional `be:` field; the stack memory gets the byte order -/
+def parseRequestBe (args : List String) : Option Request :=
+  let (args, be) := splitBe args
+  (parseRequest args).map fun r => { r with mem := r.mem.map fun m => { m with be := be } }
+
 def handleWalk (args : List String) : String :=
-  match parseRequest args with
+  match parseRequestBe args with
   | some r => showWalk r.arch (walk r.env r.mem r.ctx)
   | none => "bad-op"
 
@@ -68,7 +81,7 @@ def parseWins (mods : List Module) (field : String) : Option (List (List Win.Rec
 def handleChain (args : List String) : String :=
   match args with
   | "walk" :: win :: rest =>
-    match parseRequest rest with
+    match parseRequestBe rest with
     | some r =>
       match parseWins r.world.mods win with
       | some wins =>
@@ -95,7 +108,7 @@ def handleChain (args : List String) : String :=
     let (win, rest) := match rest with
       | f :: more => if f.startsWith "win:" then (f, more) else ("win:-", rest)
       | [] => ("win:-", rest)
-    match parseRequest rest, parseExp exp, Technique.ofStr tech with
+    match parseRequestBe rest, parseExp exp, Technique.ofStr tech with
     | some r, some chain, some t =>
       match r.mem, parseWins r.world.mods win with
       | some m, some wins =>
